@@ -102,7 +102,7 @@ def run_suite(V, wd, programs, configs, prop, checks=("link", "boundary", "resul
     by_name = {p["name"]: p for p in programs}
     keep = None
     if trace:
-        keep = ["enq", "send", "recv", "probe", "start_out", "worker", "exec_start", "exec_end", "lock", "unlock",
+        keep = ["enq", "send", "recv", "probe", "start_out", "start_setup", "worker", "exec_start", "exec_end", "lock", "unlock",
                 "wait_ret", "set_state", "barrier", "leader", "state_read", "cond"]
     jobs = make_jobs(programs, configs, trace=trace, perturb_us=perturb_us, keep=keep,
                      base_seed=seed(), hang_ms=hang_ms)
@@ -182,7 +182,69 @@ def run_suite(V, wd, programs, configs, prop, checks=("link", "boundary", "resul
                 for v in viols:
                     V.add_violation(v, replay=jobs_by_id.get(v.get("job")))
         stats["trace_events_validated"] = nevents
+        # -- T (conformance): every block head replayed through comp/StartCore.tla / comp/BinaryStart.tla
+        if "conform" in checks:
+            wdc = os.path.join(wd, "conform")
+            os.makedirs(wdc, exist_ok=True)
+            start_conform(V, wdc, traces, results, jobs_by_id)
+            binary_conform(V, wdc, traces, results, jobs_by_id)
     V.coverage["traces_validated_against_impl"] += len(results)
     for k, v in stats.items():
         V.coverage[k] = V.coverage.get(k, 0) + v
     return results, traces, jobs_by_id
+
+
+def binary_conform(V, wd, traces, results, jobs_by_id):
+    """T (conformance): receive / start_out events of every replica of every two-input block of the traced jobs,
+    replayed through comp/BinaryStart.tla (trace/BinaryConform.tla).  A mismatch is DRIFT, not a verdict."""
+    from common import read_trace, split_trace_files, validate_parallel
+    import project
+    stats = {}
+    recs = []
+    for t in traces:
+        recs += list(project.binary_records(read_trace(t), results, jobs_by_id, stats))
+    if not recs:
+        V.coverage["binary_start_segments"] = 0
+        return
+    files = split_trace_files(recs, wd, "binconf", max_events=20000)
+    _, consumed, states, infos = validate_parallel("BinaryConform", files, wd)
+    drifts = [i for i in infos if i.get("drift") == "binary_start"]
+    V.coverage["states"] += states
+    V.coverage["transitions"] += states
+    V.coverage["binary_start_segments"] = V.coverage.get("binary_start_segments", 0) + stats.get("segments", 0)
+    V.coverage["binary_start_cached_segments"] = V.coverage.get("binary_start_cached_segments", 0) + stats.get("cached_segments", 0)
+    V.coverage["binary_start_segments_skipped"] = V.coverage.get("binary_start_segments_skipped", 0) + stats.get("segments_skipped", 0)
+    V.coverage["binary_start_events"] = V.coverage.get("binary_start_events", 0) + len(recs)
+    V.coverage["binary_start_drift"] = V.coverage.get("binary_start_drift", 0) + len(drifts)
+    for d in drifts[:5]:
+        V.drift.append(f"BinaryStart: replica {d['p']} of job {d['job']}: the specification expected '{d['expected']}', "
+                       f"the code did {json.dumps(d['got'])[:120]} (event {d['index']})")
+    return drifts
+
+
+def start_conform(V, wd, traces, results, jobs_by_id):
+    """T (conformance): receive / start_out events of every replica with a single-input Start, replayed through
+    comp/StartCore.tla (trace/StartConform.tla).  A mismatch is DRIFT, not a verdict."""
+    from common import read_trace, split_trace_files, validate_parallel
+    import project
+    stats = {}
+    recs = []
+    for t in traces:
+        recs += list(project.start_records(read_trace(t), results, jobs_by_id, stats))
+    if not recs:
+        V.coverage["start_segments"] = V.coverage.get("start_segments", 0)
+        return []
+    files = split_trace_files(recs, wd, "startconf", max_events=20000)
+    _, consumed, states, infos = validate_parallel("StartConform", files, wd)
+    drifts = [i for i in infos if i.get("drift") == "start"]
+    V.coverage["states"] += states
+    V.coverage["transitions"] += states
+    V.coverage["start_segments"] = V.coverage.get("start_segments", 0) + stats.get("segments", 0)
+    V.coverage["start_events"] = V.coverage.get("start_events", 0) + len(recs)
+    V.coverage["start_conform_drift"] = V.coverage.get("start_conform_drift", 0) + len(drifts)
+    for d in drifts[:5]:
+        V.drift.append(f"Start: replica {d['p']} of job {d['job']}: the specification expected '{d['expected']}', "
+                       f"the code did {json.dumps(d['got'])[:120]} (event {d['index']})")
+    return drifts
+
+
